@@ -17,7 +17,7 @@ impl Serialize for TimeStamp {
     where
         S: Serializer,
     {
-        let form = self.0.to_rfc3339_opts(SecondsFormat::Secs, true);
+        let form = self.0.to_rfc3339_opts(SecondsFormat::AutoSi, true);
         form.serialize(ser)
     }
 }
